@@ -1,14 +1,414 @@
-//! C13 — not implemented yet (stub).
-use crate::report::{Cfg, Meta, Report};
+//! C13 — the decoded operation stream is exactly the program.
+//!
+//! T-dec: an independent MAST walker, driven by the decisions OBSERVED in the trace (stack top at
+//! SPLIT / LOOP rows and before REPEAT / END of loops, the target word at DYN rows), produces the
+//! operation stream the program prescribes; spans are decoded from their GROUP VALUES (the hash
+//! pre-image), not from `ops()`. It is compared with the op bits of the decoder columns and with the
+//! operations reported by the step iterator; NOOPs are allowed only at the documented alignment
+//! places; span bookkeeping columns (in_span, group_count) and the final program hash are checked.
+
+use crate::case::{AsmOutcome, Case, ExecOutcome};
+use crate::gen::{gen_case, GenCfg};
+use crate::report::{merge_all, Cfg, Meta, Report};
+use crate::tair::op_name;
+use crate::tview::*;
+use crate::util::{catch, par_map, rng_for, Rng8, P};
+use processor::{ExecutionTrace, Program};
+use rand::Rng;
+use serde_json::json;
+use vm_core::code_blocks::{CodeBlock, Dyn, Span};
+use vm_core::{CodeBlockTable, StarkField};
+use winter_prover::Trace;
 
 pub fn meta() -> Meta {
-    Meta { level: "exploration", rule: "stub".into(), assumptions: vec![] }
+    Meta {
+        level: "exploration",
+        rule: "each evaluation = one successful execution whose decoder columns were replayed against an independent MAST walk driven by the branch / loop / dyn decisions read from the trace: control operations at block boundaries, span operations decoded from the group values (7-bit opcodes LSB first, immediates in following groups), NOOPs only after a group-final operation with immediate and as padding to 1/2/4/8 groups, in_span / group_count bookkeeping, program hash in the final END row, and agreement with the operations reported by execute_iter; distinct = distinct (block kinds present, max nesting depth, #batches class, loop iteration classes)".into(),
+        assumptions: vec!["the MAST (CodeBlock tree and code block table of the assembled Program) is the specification of what must be executed".into()],
+    }
 }
 
-pub fn run(_cfg: &Cfg) -> Report {
-    let mut rep = Report::new();
-    rep.inconclusive("not-implemented");
+struct Walker<'a> {
+    tv: &'a TV<'a>,
+    table: &'a CodeBlockTable,
+    row: usize,
+    depth: usize,
+    max_depth: usize,
+    kinds: std::collections::BTreeSet<&'static str>,
+    batches_max: usize,
+    loop_iters: std::collections::BTreeSet<usize>,
+    noops_alignment: u64,
+}
+
+type Mis = (String, String, usize); // signature, description, row
+
+impl<'a> Walker<'a> {
+    fn expect(&mut self, name: &str, ctx: &str) -> Result<(), Mis> {
+        if self.row >= self.tv.cycles {
+            return Err((format!("stream-ends-early/{ctx}"), format!("trace ends at row {} while the program prescribes {name}", self.row), self.row));
+        }
+        let got = op_name(self.tv.op(self.row));
+        if got != name {
+            return Err((format!("wrong-op/{ctx}/expected-{name}"), format!("row {}: program prescribes {name}, trace has {got}", self.row), self.row));
+        }
+        self.row += 1;
+        Ok(())
+    }
+
+    fn block(&mut self, b: &CodeBlock) -> Result<(), Mis> {
+        self.depth += 1;
+        self.max_depth = self.max_depth.max(self.depth);
+        let r = self.block_inner(b);
+        self.depth -= 1;
+        r
+    }
+
+    fn block_inner(&mut self, b: &CodeBlock) -> Result<(), Mis> {
+        match b {
+            CodeBlock::Join(j) => {
+                self.kinds.insert("join");
+                self.expect("JOIN", "join")?;
+                self.block(j.first())?;
+                self.block(j.second())?;
+                self.end(b, "join")
+            }
+            CodeBlock::Split(s) => {
+                self.kinds.insert("split");
+                let cond = self.tv.get(STACK, self.row);
+                self.expect("SPLIT", "split")?;
+                match cond {
+                    1 => self.block(s.on_true())?,
+                    0 => self.block(s.on_false())?,
+                    _ => return Err(("split/non-binary-condition-executed".into(), format!("SPLIT at row {} executed with condition {cond}", self.row - 1), self.row - 1)),
+                }
+                self.end(b, "split")
+            }
+            CodeBlock::Loop(l) => {
+                self.kinds.insert("loop");
+                let cond = self.tv.get(STACK, self.row);
+                self.expect("LOOP", "loop")?;
+                let mut iters = 0;
+                match cond {
+                    1 => {
+                        self.block(l.body())?;
+                        iters = 1;
+                        loop {
+                            let c = self.tv.get(STACK, self.row);
+                            if c == 1 {
+                                self.expect("REPEAT", "loop")?;
+                                self.block(l.body())?;
+                                iters += 1;
+                            } else if c == 0 {
+                                break;
+                            } else {
+                                return Err(("loop/non-binary-condition-after-iteration".into(), format!("row {}: loop condition {c} after an iteration", self.row), self.row));
+                            }
+                        }
+                    }
+                    0 => {}
+                    _ => return Err(("loop/non-binary-condition-executed".into(), format!("LOOP executed with condition {cond}"), self.row - 1)),
+                }
+                self.loop_iters.insert(iters.min(3));
+                self.end(b, "loop")
+            }
+            CodeBlock::Call(c) => {
+                let name = if c.is_syscall() { "SYSCALL" } else { "CALL" };
+                self.kinds.insert(if c.is_syscall() { "syscall" } else { "call" });
+                self.expect(name, "call")?;
+                if c.fn_hash() == Dyn::dyn_hash() {
+                    self.kinds.insert("dyncall");
+                    self.dyn_block()?;
+                } else {
+                    let body = self.table.get(c.fn_hash()).ok_or_else(|| ("call/target-missing".to_string(), "call target not in the code block table".to_string(), self.row))?;
+                    self.block(body)?;
+                }
+                self.end(b, "call")
+            }
+            CodeBlock::Dyn(_) => self.dyn_block(),
+            CodeBlock::Span(s) => self.span(s, b),
+            CodeBlock::Proxy(_) => Err(("proxy-executed".into(), "a proxy block cannot be executed".into(), self.row)),
+        }
+    }
+
+    fn dyn_block(&mut self) -> Result<(), Mis> {
+        self.kinds.insert("dyn");
+        // the target is the word on top of the stack: word[i] = s(3-i)
+        let r = self.row;
+        let w = [self.tv.get(STACK + 3, r), self.tv.get(STACK + 2, r), self.tv.get(STACK + 1, r), self.tv.get(STACK, r)];
+        self.expect("DYN", "dyn")?;
+        let digest: processor::Digest = [vm_core::Felt::new(w[0]), vm_core::Felt::new(w[1]), vm_core::Felt::new(w[2]), vm_core::Felt::new(w[3])].into();
+        let body = self.table.get(digest).ok_or_else(|| ("dyn/target-missing".to_string(), "dyn target not in the code block table".to_string(), r))?;
+        self.block(body)?;
+        self.expect("END", "dyn")
+    }
+
+    fn end(&mut self, _b: &CodeBlock, ctx: &str) -> Result<(), Mis> {
+        self.expect("END", ctx)
+    }
+
+    fn span(&mut self, s: &Span, b: &CodeBlock) -> Result<(), Mis> {
+        self.kinds.insert("span");
+        let batches = s.op_batches();
+        self.batches_max = self.batches_max.max(batches.len());
+        for (bi, batch) in batches.iter().enumerate() {
+            let start_row = self.row;
+            self.expect(if bi == 0 { "SPAN" } else { "RESPAN" }, "span")?;
+            // in_span is 0 on the SPAN / RESPAN row and 1 on every operation row of the batch
+            if self.tv.get(IN_SPAN, start_row) != 0 {
+                return Err(("span/in-span-flag-on-control-row".into(), format!("row {start_row}: in_span = 1 on a SPAN/RESPAN row"), start_row));
+            }
+            // decode the groups of this batch (the hash pre-image)
+            let groups: Vec<u64> = batch.groups().iter().map(|g| g.as_int()).collect();
+            let n_groups = batch.num_groups();
+            let padded = n_groups.next_power_of_two();
+            let mut is_imm = vec![false; 8];
+            let mut next_free = 1usize;
+            let mut g = 0usize;
+            while g < padded {
+                if is_imm[g] {
+                    g += 1;
+                    continue;
+                }
+                let v = if g < 8 { groups[g] } else { 0 };
+                if g >= next_free {
+                    next_free = g + 1;
+                }
+                // number of operations the span placed in this group (NOOPs included); padded
+                // groups beyond num_groups hold none. Only used for NOOP accounting: the opcodes
+                // themselves are decoded from the group VALUE.
+                let count = if g < n_groups { batch.op_counts()[g] } else { 0 };
+                if count > 9 {
+                    return Err(("span/group-with-more-than-9-ops".into(), format!("batch {bi} group {g} holds {count} ops"), self.row));
+                }
+                if count < 9 && (v >> (7 * count as u32)) != 0 {
+                    return Err(("span/group-value-has-more-ops-than-counted".into(), format!("batch {bi} group {g}: value {v} encodes more than {count} operations"), self.row));
+                }
+                if count == 0 {
+                    // an empty (padding) group is executed as exactly one NOOP
+                    self.expect("NOOP", "span-padding-group")?;
+                    self.noops_alignment += 1;
+                    g += 1;
+                    continue;
+                }
+                let mut last_had_imm = false;
+                for k in 0..count {
+                    let opc = ((v >> (7 * k as u32)) & 0x7f) as u8;
+                    let name = op_name(opc);
+                    self.expect(&name, "span")?;
+                    if self.tv.get(IN_SPAN, self.row - 1) != 1 {
+                        return Err(("span/in-span-flag-off-on-op-row".into(), format!("row {}: in_span = 0 on an operation row", self.row - 1), self.row - 1));
+                    }
+                    last_had_imm = false;
+                    if name == "PUSH" {
+                        // the immediate sits in the next free group of the batch and is what the
+                        // operation pushes
+                        if next_free >= 8 {
+                            return Err(("span/no-group-left-for-immediate".into(), format!("batch {bi}: PUSH without a free group"), self.row - 1));
+                        }
+                        let imm = groups[next_free];
+                        is_imm[next_free] = true;
+                        next_free += 1;
+                        let pushed = self.tv.get(STACK, self.row);
+                        if pushed != imm {
+                            return Err(("span/push-immediate-differs-from-group-value".into(), format!("row {}: PUSH pushed {pushed}, the span's group holds {imm}", self.row - 1), self.row - 1));
+                        }
+                        last_had_imm = k == count - 1;
+                        if k == 8 {
+                            return Err(("span/immediate-op-last-in-group".into(), format!("batch {bi} group {g}: an operation with immediate is the 9th of its group"), self.row - 1));
+                        }
+                    }
+                }
+                if last_had_imm {
+                    // an operation carrying an immediate cannot end a group: one NOOP follows
+                    self.expect("NOOP", "span-noop-after-group-final-immediate")?;
+                    self.noops_alignment += 1;
+                }
+                g += 1;
+            }
+            let _ = start_row;
+        }
+        // group counter must be zero at the END of the span
+        let end_row = self.row;
+        self.expect("END", "span")?;
+        if self.tv.get(GROUP_COUNT, end_row) != 0 {
+            return Err(("span/group-count-not-zero-at-end".into(), format!("row {end_row}: group_count = {} at the END of a span", self.tv.get(GROUP_COUNT, end_row)), end_row));
+        }
+        let _ = b;
+        Ok(())
+    }
+}
+
+pub fn check_trace(case: &Case, prog: &Program, trace: &ExecutionTrace, rep: &mut Report) {
+    let tv = TV::new(trace);
+    let mut w = Walker {
+        tv: &tv,
+        table: prog.cb_table(),
+        row: 0,
+        depth: 0,
+        max_depth: 0,
+        kinds: Default::default(),
+        batches_max: 0,
+        loop_iters: Default::default(),
+        noops_alignment: 0,
+    };
+    let wit = |row: usize| json!({"kind": "case", "case": case.to_json(), "row": row});
+    match w.block(prog.root()) {
+        Err((sig, what, row)) => rep.violation(sig, what, wit(row)),
+        Ok(()) => {
+            if w.row != tv.cycles {
+                rep.violation("extra-operations-after-program-end", format!("the program ends at row {} but {} cycles were executed", w.row, tv.cycles), wit(w.row));
+            }
+        }
+    }
+    // padding rows: HALT until the end
+    for r in tv.cycles..tv.len - 1 {
+        if tv.op(r) != OP_HALT {
+            rep.violation("padding-row-not-halt", format!("row {r} after the end of the program is {}", op_name(tv.op(r))), wit(r));
+            break;
+        }
+    }
+    // final END row carries the program hash in h0..h3
+    if tv.cycles > 0 {
+        let r = tv.cycles - 1;
+        let h = tv.hasher(r);
+        let ph: [vm_core::Felt; 4] = prog.hash().into();
+        if op_name(tv.op(r)) != "END" || (0..4).any(|i| h[i] != ph[i].as_int()) {
+            rep.violation("final-row-program-hash", format!("row {r}: the last executed row is {} with h0..h3 = {:?}, program hash = {:?}", op_name(tv.op(r)), &h[..4], ph.iter().map(|x| x.as_int()).collect::<Vec<_>>()), wit(r));
+        }
+    }
+    let kinds: Vec<&str> = w.kinds.iter().cloned().collect();
+    for k in &kinds {
+        rep.count("block_kinds", k);
+    }
+    rep.count("max_nesting_depth", &w.max_depth.min(8).to_string());
+    rep.count("batches_class", match w.batches_max {
+        0 | 1 => "1",
+        2 => "2",
+        3..=5 => "3-5",
+        _ => ">5",
+    });
+    for i in &w.loop_iters {
+        rep.count("loop_iterations", &format!("{}{}", i, if *i == 3 { "+" } else { "" }));
+    }
+    rep.count_n("alignment_noops", "seen", w.noops_alignment);
+    rep.eval(&format!("{}|{}|{}|{:?}", kinds.join(","), w.max_depth, w.batches_max.min(6), w.loop_iters));
+}
+
+fn iter_ops(case: &Case, prog: &Program, trace: &ExecutionTrace, rep: &mut Report) {
+    let tv = TV::new(trace);
+    let it = match catch(|| processor::execute_iter(prog, case.stack_inputs(), case.host())) {
+        Ok(it) => it,
+        Err(_) => return,
+    };
+    for st in it {
+        let st = match st {
+            Ok(s) => s,
+            Err(_) => break,
+        };
+        if st.clk == 0 {
+            continue;
+        }
+        let r = st.clk as usize - 1;
+        if r >= tv.cycles {
+            break;
+        }
+        if let Some(op) = st.op {
+            if op.op_code() != tv.op(r) {
+                rep.violation("iterator-op-differs-from-trace", format!("clk {}: iterator reports {op}, trace row {r} has {}", st.clk, op_name(tv.op(r))), json!({"kind": "case", "case": case.to_json(), "row": r}));
+                break;
+            }
+        }
+    }
+    rep.count("iterator_ops", "compared");
+}
+
+pub fn run_case(case: &Case, rep: &mut Report, with_iter: bool) {
+    let prog = match case.assemble() {
+        AsmOutcome::Ok(p) => p,
+        _ => {
+            rep.count("outcome", "asm-fail");
+            return;
+        }
+    };
+    // generated loop bodies may clobber their counter: bound the run
+    let opts = processor::ExecutionOptions::new(Some(1 << 17), 64, false).unwrap();
+    let trace = match case.execute_with(&prog, opts) {
+        ExecOutcome::Ok(t) => t,
+        _ => {
+            rep.count("outcome", "exec-fail");
+            return;
+        }
+    };
+    rep.count("outcome", "ok");
+    check_trace(case, &prog, &trace, rep);
+    if with_iter {
+        iter_ops(case, &prog, &trace, rep);
+    }
+    if rep.samples.len() < 3 {
+        rep.sample(json!({"src": crate::report::truncate(&case.src, 200), "cycles": trace.trace_len_summary().main_trace_len(), "trace_len": trace.length()}));
+    }
+}
+
+/// spans with chosen push / non-push patterns embedded in flow shapes
+fn span_case(rng: &mut Rng8) -> Case {
+    let n = match rng.gen_range(0..4) {
+        0 => rng.gen_range(1..12),
+        1 => rng.gen_range(60..90),
+        2 => rng.gen_range(100..400),
+        _ => rng.gen_range(8..80),
+    };
+    let p_push = [0.05, 0.3, 0.6, 0.95][rng.gen_range(0..4)];
+    let mut body = String::new();
+    for _ in 0..n {
+        if rng.gen_bool(p_push) {
+            body.push_str(&format!("push.{} ", rng.gen::<u64>() % P));
+        } else {
+            body.push_str(["add ", "swap ", "drop ", "dup.1 ", "neg ", "mul ", "movup.3 ", "padw dropw "][rng.gen_range(0..8)]);
+        }
+    }
+    let shape = rng.gen_range(0..5);
+    let iters = rng.gen_range(0..4);
+    let src = match shape {
+        0 => format!("begin {body} end"),
+        1 => format!("begin push.{} if.true {body} else push.1 drop end {body} end", rng.gen_range(0..2)),
+        2 => format!("begin push.{iters} dup.0 neq.0 while.true movdn.15 {body} movup.15 sub.1 dup.0 neq.0 end drop end"),
+        3 => format!("proc.f {body} end begin exec.f repeat.2 {body} end call.f end"),
+        _ => format!("proc.f {body} end begin procref.f dynexec dropw push.1 if.true push.0 if.true push.3 else {body} end end end"),
+    };
+    let mut c = Case::new(src);
+    c.stack = (0..16).map(|_| rng.gen::<u64>() % P).collect();
+    c
+}
+
+pub fn run(cfg: &Cfg) -> Report {
+    let shards = 64;
+    let per = cfg.n(150, 3000);
+    let reports = par_map(shards, |sh| {
+        let mut rng = rng_for(cfg.seed, "C13", sh as u64);
+        let mut rep = Report::new();
+        for i in 0..per {
+            let case = if i % 2 == 0 {
+                span_case(&mut rng)
+            } else {
+                let size = rng.gen_range(3..60);
+                let gc = GenCfg::random(&mut rng, size);
+                gen_case(&mut rng, &gc)
+            };
+            run_case(&case, &mut rep, i % 4 == 0);
+        }
+        rep
+    });
+    let mut rep = merge_all(reports);
+    rep.floor(rep.hist_len("block_kinds") >= 7, "all-block-kinds-(join,split,loop,call,syscall,dyn,span)");
+    rep.floor(rep.get_count("batches_class", ">5") >= 10, "spans-with-more-than-5-batches");
+    rep.floor(rep.hist_len("loop_iterations") >= 4, "loops-with-0,1,2,3+-iterations");
+    rep.floor(rep.get_count("alignment_noops", "seen") >= 1000, "alignment-noops-observed");
+    rep.floor(rep.get_count("iterator_ops", "compared") >= 100, "iterator-op-streams-compared");
     rep
 }
 
-pub fn replay(_v: &serde_json::Value, _rep: &mut Report) {}
+pub fn replay(v: &serde_json::Value, rep: &mut Report) {
+    if let Some(case) = v.get("case").and_then(Case::from_json) {
+        run_case(&case, rep, true);
+    }
+}
